@@ -23,6 +23,8 @@ func checkC20(c *Ctx) {
 	r.Rule("R20a", "mock assignments type-check for every response-field shape (with the service file and runtime; Mock<S>Server implements <S>Server)", 4)
 	r.Rule("R20c", "mock field walker recursion is well-founded", 2)
 	r.Rule("R20h", "the mock walker's visited set is path-scoped (marked on entry, unmarked on return)", 1)
+	r.Rule("R20i", "the mock walker's visited set is keyed by the message's full name (no two messages share a key)", 1)
+	visitedKeysInjective(c, "R20i", func(fn *types.Func) bool { return strings.HasSuffix(fn.Pkg().Path(), "internal/httpgen") })
 	r.Rule("R20d", "example values and table keys are printed quoted", 1)
 	r.Rule("R20e", "example table keys and selector lookup keys have the same format", 1)
 	r.Rule("R20f", "file-independent package-level names in per-file units", 1)
